@@ -49,7 +49,7 @@ func RunTrial(p *sut.Proc, t Trial) (out *Outcome) {
 	defer func() {
 		if r := recover(); r != nil {
 			if !p.Alive() {
-				out.Findings = append(out.Findings, finding(t, "process/exited", "the server process ended during the trial (%v): %s\n%s", r, p.ExitInfo(), p.LogTail(5000)))
+				out.Findings = append(out.Findings, finding(t, "process/exited", "the server process ended during the trial (%v): %s\n%s", r, p.ExitInfo(), p.CrashHead(5000)))
 				return
 			}
 			out.Inconclusive = fmt.Sprint("harness: ", r)
@@ -157,7 +157,7 @@ func RunTrial(p *sut.Proc, t Trial) (out *Outcome) {
 	_ = sendErr
 
 	if !p.Alive() {
-		out.Findings = append(out.Findings, finding(t, "process/exited", "the server process ended: %s\n%s", p.ExitInfo(), p.LogTail(5000)))
+		out.Findings = append(out.Findings, finding(t, "process/exited", "the server process ended: %s\n%s", p.ExitInfo(), p.CrashHead(5000)))
 		return
 	}
 	out.Oracles++ // process alive
@@ -284,7 +284,7 @@ func RunTrial(p *sut.Proc, t Trial) (out *Outcome) {
 
 func wedgeFinding(p *sut.Proc, t Trial, what string) *check.Finding {
 	if !p.Alive() {
-		return finding(t, "process/exited", "the server process ended: %s (%s)\n%s", p.ExitInfo(), what, p.LogTail(5000))
+		return finding(t, "process/exited", "the server process ended: %s (%s)\n%s", p.ExitInfo(), what, p.CrashHead(5000))
 	}
 	d1, e1_ := p.Goroutines()
 	time.Sleep(500 * time.Millisecond)
@@ -326,7 +326,7 @@ func BurstTrial(p *sut.Proc, n int) (f *check.Finding, inconclusive string) {
 	defer func() {
 		if r := recover(); r != nil {
 			if !p.Alive() {
-				f = finding(t, "process/exited", "the server process ended: %s\n%s", p.ExitInfo(), p.LogTail(4000))
+				f = finding(t, "process/exited", "the server process ended: %s\n%s", p.ExitInfo(), p.CrashHead(4000))
 				return
 			}
 			inconclusive = fmt.Sprint(r)
